@@ -327,7 +327,7 @@ func TestC10DirectConnection(t *testing.T) {
 		t.Skip()
 	}
 
-	kit.SetChecks(25_000, 300_000)
+	kit.SetChecks(20_000, 300_000)
 	rapid.Check(t, func(rt *rapid.T) {
 		if rapid.IntRange(0, 7).Draw(rt, "manyports") == 0 {
 			run(rt, genManyPorts(rt, c10ConnFreqs))
